@@ -71,6 +71,12 @@ func (b *backoff) next(attempt int) time.Duration {
 	durf := minf * math.Pow(1.5, float64(attempt))
 	durf = durf + rand.Float64()*minf
 
+	// clamp before converting: for large attempt numbers durf exceeds what a
+	// time.Duration can hold and the conversion would yield a negative delay
+	if durf > float64(b.maxDelay) {
+		durf = float64(b.maxDelay)
+	}
+
 	delay := time.Duration(durf)
 
 	vpoint(b, "backoff.next", "attempt", attempt, "d", int64(delay), "min", int64(b.minDelay), "max", int64(b.maxDelay))
